@@ -93,7 +93,7 @@ func (w *World) moveResultHelper(fn *ssa.Function, seen map[*ssa.Function]bool) 
 var directionalMoves = map[string]bool{"MoveToChild": true, "MoveToNext": true, "MoveToPrevious": true, "MoveToParent": true, "MoveToNextAttribute": true}
 
 func ruleNUnchecked(w *World, r *Report) {
-	r.rule("N-UNCHECKED", "in run-time code the boolean outcome of a directional cursor move (MoveToChild, MoveToNext, MoveToPrevious, MoveToParent, MoveToNextAttribute, or a package function that hands such an outcome on) is used; it may be discarded only for MoveToParent next to the decrement of a depth counter (a parent is known to exist). A discarded outcome means the code that follows treats the node the cursor started from as the node it was to move to")
+	r.rule("N-UNCHECKED", "in run-time code the boolean outcome of a directional cursor move (MoveToChild, MoveToNext, MoveToPrevious, MoveToParent, MoveToNextAttribute, or a package function that hands such an outcome on) is used; it may be discarded only for MoveToParent next to the decrement of a depth counter (a parent is known to exist); and from the failure edge of such a move the node test or a return of the cursor is not reached without a further move of that cursor. A discarded outcome means the code that follows treats the node the cursor started from as the node it was to move to")
 	n, dropped := 0, 0
 	for _, fn := range w.AllFuncs {
 		if !w.RunTime[fn] {
@@ -130,6 +130,121 @@ func ruleNUnchecked(w *World, r *Report) {
 					continue
 				}
 				r.bad("N-UNCHECKED", key, w.instrPos(in), fmt.Sprintf("the outcome of %s is discarded: when the move fails the cursor is still on the node it started from, and the code that follows tests or returns that node as if the move had happened (a node without children is handed out as its own descendant)", name))
+			}
+		}
+	}
+	// the outcome looked at, but a failed move still treated as done: from the
+	// failure edge of a directional move of cursor c, the node test or a return
+	// of c is reached without any further move of c in between
+	for _, fn := range w.AllFuncs {
+		if !w.RunTime[fn] {
+			continue
+		}
+		type mv struct {
+			call *ssa.Call
+			key  string
+			name string
+		}
+		var moves []mv
+		for _, b := range fn.Blocks {
+			for _, in := range b.Instrs {
+				c, ok := in.(*ssa.Call)
+				if !ok {
+					continue
+				}
+				if recv, m, class, ok := w.isNavCall(c); ok && class == "move" && directionalMoves[m] && !w.isContextRegister(c.Call.Value) {
+					moves = append(moves, mv{c, cursorKey(recv), m})
+				} else if f := c.Call.StaticCallee(); f != nil && w.moveResultHelper(f, map[*ssa.Function]bool{}) {
+					// the cursor the helper moves
+					hk := ""
+					eachInstr(f, false, func(_ *ssa.Function, in2 ssa.Instruction) {
+						if c2, ok := in2.(*ssa.Call); ok {
+							if recv, m, class, ok := w.isNavCall(c2); ok && class == "move" && directionalMoves[m] {
+								hk = cursorKey(recv)
+							}
+						}
+					})
+					if hk != "" {
+						moves = append(moves, mv{c, hk, f.Name()})
+					}
+				}
+			}
+		}
+		for _, m := range moves {
+			fb, fidx, ok := falseEdgeOf(m.call)
+			if !ok {
+				continue
+			}
+			// barriers: any move of the same cursor (its success edge, or the call
+			// itself when its outcome is not tested)
+			trueEdge := map[*ssa.BasicBlock]map[int]bool{}
+			barrierInstr := map[ssa.Instruction]bool{}
+			for _, o := range moves {
+				if o.key != m.key {
+					continue
+				}
+				if bb, i, ok := falseEdgeOf(o.call); ok {
+					if trueEdge[bb] == nil {
+						trueEdge[bb] = map[int]bool{}
+					}
+					trueEdge[bb][1-i] = true
+				} else {
+					barrierInstr[o.call] = true
+				}
+			}
+			start := fb.Succs[fidx]
+			seen := map[*ssa.BasicBlock]bool{start: true}
+			work := []*ssa.BasicBlock{start}
+			var stale ssa.Instruction
+			for len(work) > 0 && stale == nil {
+				b := work[len(work)-1]
+				work = work[:len(work)-1]
+				stopped := false
+				for _, in := range b.Instrs {
+					if barrierInstr[in] {
+						stopped = true
+						break
+					}
+					// the cursor variable is given a new navigator: what follows is about that one
+					if st, ok := in.(*ssa.Store); ok && w.isNavType(st.Val.Type()) && cursorKeyOfAddr(st.Addr) == m.key {
+						stopped = true
+						break
+					}
+					switch x := in.(type) {
+					case *ssa.Call:
+						// the node test applied to the cursor: a call through a function value
+						// (or of a predicate-typed function) with the cursor as its argument
+						if !x.Call.IsInvoke() && len(x.Call.Args) >= 1 && w.isPredicateFuncType(x.Call.Value.Type()) {
+							if cursorKey(x.Call.Args[len(x.Call.Args)-1]) == m.key {
+								stale = in
+							}
+						}
+					case *ssa.Return:
+						for _, rv := range x.Results {
+							if w.isNavType(rv.Type()) && cursorKey(rv) == m.key {
+								stale = in
+							}
+						}
+					}
+					if stale != nil {
+						break
+					}
+				}
+				if stopped || stale != nil {
+					continue
+				}
+				for i, sc := range b.Succs {
+					if trueEdge[b][i] || seen[sc] {
+						continue
+					}
+					seen[sc] = true
+					work = append(work, sc)
+				}
+			}
+			key := fmt.Sprintf("%s:%s:stale", fnName(fn), m.name)
+			if stale != nil {
+				r.FuncsAnalysed[fnName(fn)] = true
+				r.bad("N-UNCHECKED", key, w.instrPos(m.call), fmt.Sprintf("when %s fails the cursor has not moved, yet the node test / the result at %s uses it as the node moved to (a node without children is handed out as its own descendant)", m.name, w.instrPos(stale)))
 			}
 		}
 	}
